@@ -396,11 +396,60 @@ func errorFamily() []*annot.Input {
 
 const canaryAfter = "canary: the update list of the annotated object changed after the snapshots (first update lost)"
 
+// undeleteFamily: a child visible, then DELETED before the parent version, then undeleted after it
+// (and variants with the deletion at the parent's own stamp, two deletions, the parent repeated),
+// with and without IgnoreInconsistency, ways and relations, commit and timestamp regime.
+func undeleteFamily() []*annot.Input {
+	var out []*annot.Input
+	for _, commit := range []bool{true, false} {
+		for _, isRel := range []bool{false, true} {
+			for variant := 0; variant < 3; variant++ {
+				for _, ignore := range []bool{true, false} {
+					base := osm.CommitInfoStart.Add(200 * 24 * time.Hour)
+					regime := "commit"
+					if !commit {
+						base, regime = osm.CommitInfoStart.Add(-2000*24*time.Hour), "old"
+					}
+					at := func(h int) (time.Time, *time.Time) {
+						t := base.Add(time.Duration(h) * time.Hour)
+						if commit {
+							c := t
+							return t, &c
+						}
+						return t, nil
+					}
+					in := &annot.Input{IsRel: isRel, Threshold: 30 * time.Minute, Regime: regime, IgnoreIncons: ignore}
+					fid, other := osm.NodeID(1).FeatureID(), osm.NodeID(2).FeatureID()
+					mkv := func(v, h int, vis bool) annot.Hver {
+						ts, com := at(h)
+						return annot.Hver{Version: v, Changeset: int64(10 + v), Timestamp: ts, Committed: com, Lat: float64(v), Lon: 1, Visible: vis}
+					}
+					delAt := []int{6, 10, 4}[variant] // before the parent, at its stamp, before it (twice deleted)
+					vs := []annot.Hver{mkv(1, 1, true), mkv(2, delAt, false)}
+					if variant == 2 {
+						vs = append(vs, mkv(3, 7, true), mkv(4, 8, false), mkv(5, 20, true), mkv(6, 30, true))
+					} else {
+						vs = append(vs, mkv(3, 20, true), mkv(4, 30, true))
+					}
+					in.Hists = []annot.Hist{{FID: fid, Versions: vs}, {FID: other, Versions: []annot.Hver{mkv(1, 2, true), mkv(2, 25, true)}}}
+					pts, pcom := at(10)
+					p2ts, p2com := at(40)
+					in.Parents = []annot.Parent{
+						{Changeset: 100, Visible: true, Timestamp: pts, Committed: pcom, Refs: []annot.Ref{{FID: other}, {FID: fid}, {FID: fid}}},
+						{Changeset: 101, Visible: true, Timestamp: p2ts, Committed: p2com, Refs: []annot.Ref{{FID: fid}}}}
+					out = append(out, in)
+				}
+			}
+		}
+	}
+	return out
+}
+
 func main() {
 	a := wire.ParseArgs()
 	rng := wire.Rng(a.Seed)
 	w := wire.NewWriter("C11", a.Seed, a.Tier)
-	w.Rule = "edit histories: 1-5 parent versions, 1-6 children (repeats, entering, leaving), up to 8 versions per child placed before/between/after/in the same second as parent versions, deletions and undeletions, regimes commit / old / nocommit / mixed, thresholds 0,1s,30min,10000h,random; families: errors (4 ignore-option combinations x {never listed, not found, empty, all deleted, deleted at the parent's time}), slow_datasource (context-honouring lookups with one ignorable missing child), late_parent (first k parent versions annotated alone, then all together with the first k already annotated), old data with a populated committed attribute, location-only references under a filter, versions dated in the year 2100; plus a boundary family (child versions stamped exactly at a parent's stamp, at the next parent's stamp minus the threshold, +-1ns, +-threshold), child filters with pre-annotated references, ignore options, missing or failing histories; half of the histories are consistent (success expected). For every visible parent of a successful annotation ApplyUpdatesUpTo(t) is observed at up to 8 (quick) / 16 (thorough) times drawn from all event times, +-1ns, +-threshold (window times first). Non-trivial = error outcome or at least one update; distinct = distinct token streams."
+	w.Rule = "edit histories: 1-5 parent versions, 1-6 children (repeats, entering, leaving), up to 8 versions per child placed before/between/after/in the same second as parent versions, deletions and undeletions, regimes commit / old / nocommit / mixed, thresholds 0,1s,30min,10000h,random; families: undelete (a child deleted before / at the parent version and undeleted later, with and without IgnoreInconsistency), errors (4 ignore-option combinations x {never listed, not found, empty, all deleted, deleted at the parent's time}), slow_datasource (context-honouring lookups with one ignorable missing child), late_parent (first k parent versions annotated alone, then all together with the first k already annotated), old data with a populated committed attribute, location-only references under a filter, versions dated in the year 2100; plus a boundary family (child versions stamped exactly at a parent's stamp, at the next parent's stamp minus the threshold, +-1ns, +-threshold), child filters with pre-annotated references, ignore options, missing or failing histories; half of the histories are consistent (success expected). For every visible parent of a successful annotation ApplyUpdatesUpTo(t) is observed at up to 8 (quick) / 16 (thorough) times drawn from all event times, +-1ns, +-threshold (window times first). Non-trivial = error outcome or at least one update; distinct = distinct token streams."
 	n, ntimes := 200, 8
 	if a.Tier == "thorough" {
 		n, ntimes = 6000, 16
@@ -424,6 +473,10 @@ func main() {
 			c, _, _ := mainCase(w, rng, in, ntimes, "errors")
 			w.Add(c)
 		}
+	}
+	for _, in := range undeleteFamily() {
+		c, _, _ := mainCase(w, rng, in, ntimes, "undelete")
+		w.Add(c)
 	}
 	// a slow datasource that honours its context, with one missing child that is to be ignored
 	for k := 0; k < 3; k++ {
